@@ -22,6 +22,11 @@ thread_local! {
     static PANIC_MSG: Cell<Option<String>> = const { Cell::new(None) };
 }
 
+pub fn trace_on() -> bool {
+    static ON: std::sync::OnceLock<bool> = std::sync::OnceLock::new();
+    *ON.get_or_init(|| std::env::var("MQV_TRACE").is_ok())
+}
+
 pub fn current_tid() -> Option<usize> {
     let t = TID.with(|t| t.get());
     if t == usize::MAX {
@@ -591,10 +596,20 @@ impl Sched {
         if !st.active {
             return None;
         }
-        if st.abort.is_some() {
-            if std::thread::panicking() {
-                return None;
+        if std::thread::panicking() {
+            // a genuine panic is unwinding through the crate's destructors: tear the execution
+            // down now and let the destructors run on the real primitives
+            if st.abort.is_none() {
+                let mut st = st;
+                let msg = PANIC_MSG
+                    .with(|p| p.take())
+                    .unwrap_or_else(|| "<panic>".to_string());
+                st.set_abort(Verdict::Panic(me, msg));
+                self.wake_all();
             }
+            return None;
+        }
+        if st.abort.is_some() {
             drop(st);
             panic::resume_unwind(Box::new(AbortToken));
         }
@@ -648,6 +663,9 @@ impl Sched {
             }
         }
         st.pending_addr = st.addr_index(addr);
+        if trace_on() {
+            eprintln!("  [{:>5}] t{} addr#{} act={:?}", st.step, me, st.pending_addr, st.threads[me].activity.kind);
+        }
         let sy = st.cfg.spin_yield;
         let th = &mut st.threads[me];
         th.ro_streak += 1;
@@ -840,7 +858,7 @@ impl Sched {
             let mut st = self.lock();
             if st.active {
                 st.threads[me].activity = a;
-                st.threads[me].in_call = a.kind != 0;
+                st.threads[me].in_call = a.kind != 0 && a.kind < 100;
             }
         }
     }
@@ -985,6 +1003,9 @@ impl Runtime for Sched {
                     st.faults.push(msg.clone());
                     self.abort_here(st, Verdict::Fault(msg));
                 }
+            }
+            if trace_on() {
+                eprintln!("      t{} {:?}", me, _kind);
             }
             let _st = self.point(st, me, addr);
         }
